@@ -1,27 +1,22 @@
 --------------------------- MODULE TraceReplicate ---------------------------
-(* Record validation for C31: every {in, out} record produced by the real Server.Replicate (real putsvc
-   validation, recording local storage) is judged by the reference Accept(in):
-     RecOkOnlyIfAccepted      out.ok => Accept(in)
-     RecStoredOnlyIfAccepted  (out.stored \/ out.present) => Accept(in)   (write observed at the storage leaf /
-                                                                           object present in the engine afterwards)
-     RecOkMeansStored         out.ok => out.stored /\ out.present
-     RecAcceptedWhenAllChecksPass   Accept(in) => out.ok   (other direction: drift of the reference, not a verdict)
+(* Record validation for C31 (independent requests): every {in, out} record produced by the real
+   Server.Replicate (real putsvc validation, recording local storage) is judged by the reference Accept(in):
+     OkOnlyIfAccepted       out.ok => Accept(in)
+     StoredOnlyIfAccepted   (out.stored \/ out.present) => Accept(in)   (write observed at the storage leaf /
+                                                                         object present in the engine afterwards)
+     OkMeansStored          out.ok => out.stored /\ out.present
+     AcceptedWhenAllChecksPass   Accept(in) => out.ok   (other direction: drift of the reference, not a verdict)
    One step per record, so that a counterexample names the record. *)
 EXTENDS Replicate, Json
 Recs == ndJsonDeserialize("trace.ndjson")
 VARIABLE l
-TraceInit == l = 0 /\ in = (CHOOSE i \in Inputs : TRUE) /\ out = Impl(in)
+TraceInit == Init /\ l = 0
 TraceNext == /\ l < Len(Recs)
              /\ l' = l + 1
+             /\ has' = TRUE
              /\ in' = Recs[l + 1].in
              /\ out' = Recs[l + 1].out
+             /\ UNCHANGED <<epoch, curC, prevC, curS, prevS>>
 TraceSpec == TraceInit /\ [][TraceNext]_<<vars, l>>
-Cur == l >= 1
-RecWellFormed == Cur => in \in Inputs
-\* C31 (safety): OK status only for a request that passes all the checks; nothing stored otherwise; OK means stored
-RecOkOnlyIfAccepted == Cur => (out.ok => Accept(in))
-RecStoredOnlyIfAccepted == Cur => ((out.stored \/ out.present) => Accept(in))
-RecOkMeansStored == Cur => (out.ok => (out.stored /\ out.present))
-\* not part of the property (a handler that refuses MORE than the reference is not a violation): reported as drift
-RecAcceptedWhenAllChecksPass == Cur => (Accept(in) => out.ok)
+RecWellFormed == has => in \in Inputs
 =============================================================================
